@@ -21,6 +21,8 @@ pub struct Case {
     pub vclass: String,
     pub state: usize,
     pub raw: Option<Vec<u8>>,
+    /// bytes another connection sends first and then stays connected (a client blocked on k while the case's request runs)
+    pub pre: Option<Vec<u8>>,
 }
 
 const EXTRA_EXAMPLES: &[(&str, &[&str])] = &[
@@ -114,7 +116,7 @@ pub fn cases(thorough: bool) -> Vec<Case> {
                     for &s in states.iter() {
                         let mut c = full.clone();
                         c[pos] = val.clone();
-                        out.push(Case { name: name.clone(), cmd: c, pos, vclass: vc.to_string(), state: s, raw: None });
+                        out.push(Case { name: name.clone(), cmd: c, pos, vclass: vc.to_string(), state: s, raw: None, pre: None });
                     }
                 }
             } else if is_id || a == "$" || a == ">" || a == "*" {
@@ -122,7 +124,7 @@ pub fn cases(thorough: bool) -> Vec<Case> {
                     for &s in [0usize, 6].iter() {
                         let mut c = full.clone();
                         c[pos] = val.clone();
-                        out.push(Case { name: name.clone(), cmd: c, pos, vclass: format!("id:{}", vc), state: s, raw: None });
+                        out.push(Case { name: name.clone(), cmd: c, pos, vclass: format!("id:{}", vc), state: s, raw: None, pre: None });
                     }
                 }
             } else {
@@ -131,19 +133,19 @@ pub fn cases(thorough: bool) -> Vec<Case> {
                     for s in sts {
                         let mut c = full.clone();
                         c[pos] = val.clone();
-                        out.push(Case { name: name.clone(), cmd: c, pos, vclass: format!("str:{}", vc), state: s, raw: None });
+                        out.push(Case { name: name.clone(), cmd: c, pos, vclass: format!("str:{}", vc), state: s, raw: None, pre: None });
                     }
                 }
                 // a number where a word is expected
                 let mut c = full.clone();
                 c[pos] = b"9223372036854775807".to_vec();
-                out.push(Case { name: name.clone(), cmd: c, pos, vclass: "num-for-word".into(), state: 0, raw: None });
+                out.push(Case { name: name.clone(), cmd: c, pos, vclass: "num-for-word".into(), state: 0, raw: None, pre: None });
             }
         }
         // the plain example on every state (incl. the large ones)
         for s in 0..9 {
             if thorough || s < 3 || s >= 7 {
-                out.push(Case { name: name.clone(), cmd: full.clone(), pos: 0, vclass: "example".into(), state: s, raw: None });
+                out.push(Case { name: name.clone(), cmd: full.clone(), pos: 0, vclass: "example".into(), state: s, raw: None, pre: None });
             }
         }
     }
@@ -172,7 +174,51 @@ pub fn cases(thorough: bool) -> Vec<Case> {
             for (vc, second) in [("same-key-twice", b"k".to_vec()), ("second-key-in-the-same-shard", sibling.clone())] {
                 let cmd: Vec<Vec<u8>> = cmdline.iter().map(|a| if *a == "K2" { second.clone() } else { a.as_bytes().to_vec() }).collect();
                 for s in 0..7 {
-                    out.push(Case { name: cmdline[0].to_string(), cmd: cmd.clone(), pos: 2, vclass: vc.to_string(), state: s, raw: None });
+                    out.push(Case { name: cmdline[0].to_string(), cmd: cmd.clone(), pos: 2, vclass: vc.to_string(), state: s, raw: None, pre: None });
+                }
+            }
+        }
+    }
+    // bursts against a blocked client: while another connection waits in BLPOP / BRPOP on k (one or two keys), every
+    // ordered pair (thorough: triple) of a menu of commands on k arrives in one write, plainly and inside MULTI/EXEC - the
+    // wake-up that a push queued meets whatever the rest of the burst made of the key (a seeded `?` on the wake-up's pop
+    // took the whole server down when the key had become a string in between)
+    {
+        let menu: Vec<Vec<&str>> = vec![
+            vec!["RPUSH", "k", "x"], vec!["LPUSH", "k", "x", "y"], vec!["DEL", "k"], vec!["SET", "k", "str"], vec!["SADD", "k", "m"], vec!["LPOP", "k"], vec!["RENAME", "k", "k2"],
+            vec!["RENAME", "k2", "k"], vec!["PEXPIRE", "k", "1"], vec!["FLUSHDB"], vec!["HSET", "k", "f", "v"], vec!["LTRIM", "k", "1", "0"],
+        ];
+        let waiters: Vec<(&str, Vec<&str>)> = vec![("BLPOP k 0", vec!["BLPOP", "k", "0"]), ("BRPOP k2 k 5", vec!["BRPOP", "k2", "k", "5"])];
+        let mut bursts: Vec<Vec<usize>> = Vec::new();
+        for a in 0..menu.len() {
+            for b2 in 0..menu.len() {
+                bursts.push(vec![a, b2]);
+                if thorough {
+                    for c in 0..menu.len() {
+                        bursts.push(vec![a, b2, c]);
+                    }
+                }
+            }
+        }
+        for (wname, wcmd) in waiters.iter() {
+            for burst in bursts.iter() {
+                // only bursts that can queue a wake-up matter: they contain a push
+                if !burst.iter().any(|i| menu[*i][0].ends_with("PUSH")) {
+                    continue;
+                }
+                for in_multi in [false, true] {
+                    let mut bytes = Vec::new();
+                    if in_multi {
+                        bytes.extend(resp::cmd(&["MULTI"]));
+                    }
+                    for i in burst.iter() {
+                        bytes.extend(resp::cmd(&menu[*i]));
+                    }
+                    if in_multi {
+                        bytes.extend(resp::cmd(&["EXEC"]));
+                    }
+                    let name = format!("burst against {}: {}{}", wname, burst.iter().map(|i| menu[*i].join(" ")).collect::<Vec<_>>().join(", "), if in_multi { " (in MULTI/EXEC)" } else { "" });
+                    out.push(Case { name: "(burst)".into(), cmd: vec![], pos: 0, vclass: name, state: 0, raw: Some(bytes), pre: Some(resp::cmd(wcmd)) });
                 }
             }
         }
@@ -180,17 +226,17 @@ pub fn cases(thorough: bool) -> Vec<Case> {
     // scripts that never end / recurse / allocate
     for (vc, script) in [("infinite-loop", "while true do end"), ("deep-recursion", "local function f(n) return f(n+1)+1 end return f(1)"), ("big-string", "return string.rep('x', 8*1024*1024)"),
         ("big-table", "local t={} for i=1,1000000 do t[i]=i end return #t"), ("error-object", "error({1,2,3})"), ("pcall-loop", "return redis.pcall('EVAL','return 1','0')")] {
-        out.push(Case { name: "EVAL".into(), cmd: vec![b"EVAL".to_vec(), script.as_bytes().to_vec(), b"0".to_vec()], pos: 1, vclass: format!("script:{}", vc), state: 0, raw: None });
+        out.push(Case { name: "EVAL".into(), cmd: vec![b"EVAL".to_vec(), script.as_bytes().to_vec(), b"0".to_vec()], pos: 1, vclass: format!("script:{}", vc), state: 0, raw: None, pre: None });
     }
     // raw byte frames
     for (n, b) in super::c20::totality_inputs() {
         if b.len() > (8 << 20) {
             continue;
         }
-        out.push(Case { name: "(raw)".into(), cmd: vec![], pos: 0, vclass: n, state: 0, raw: Some(b) });
+        out.push(Case { name: "(raw)".into(), cmd: vec![], pos: 0, vclass: n, state: 0, raw: Some(b), pre: None });
     }
     for (n, b) in super::c05::malformed_frames() {
-        out.push(Case { name: "(raw)".into(), cmd: vec![], pos: 0, vclass: n.to_string(), state: 0, raw: Some(b) });
+        out.push(Case { name: "(raw)".into(), cmd: vec![], pos: 0, vclass: n.to_string(), state: 0, raw: Some(b), pre: None });
     }
     // truncated frames: every proper prefix of every encoding of the codec corpus (all RESP2/RESP3 frame types,
     // null forms, nested containers, command arrays), each on its own connection which is then closed
@@ -201,13 +247,13 @@ pub fn cases(thorough: bool) -> Vec<Case> {
             for cut in 1..enc.len() {
                 let p = enc[..cut].to_vec();
                 if seen.insert(p.clone()) {
-                    out.push(Case { name: "(raw)".into(), cmd: vec![], pos: 0, vclass: format!("truncated {}", crate::resp::show_bytes(&p)), state: 0, raw: Some(p) });
+                    out.push(Case { name: "(raw)".into(), cmd: vec![], pos: 0, vclass: format!("truncated {}", crate::resp::show_bytes(&p)), state: 0, raw: Some(p), pre: None });
                 }
             }
         }
     }
-    out.push(Case { name: "(raw)".into(), cmd: vec![], pos: 0, vclass: "bulk header 512MiB then nothing".into(), state: 0, raw: Some(b"*2\r\n$3\r\nGET\r\n$536870912\r\nab".to_vec()) });
-    out.push(Case { name: "(raw)".into(), cmd: vec![], pos: 0, vclass: "1 MiB without CRLF".into(), state: 0, raw: Some(vec![b'+'; 1 << 20]) });
+    out.push(Case { name: "(raw)".into(), cmd: vec![], pos: 0, vclass: "bulk header 512MiB then nothing".into(), state: 0, raw: Some(b"*2\r\n$3\r\nGET\r\n$536870912\r\nab".to_vec()), pre: None });
+    out.push(Case { name: "(raw)".into(), cmd: vec![], pos: 0, vclass: "1 MiB without CRLF".into(), state: 0, raw: Some(vec![b'+'; 1 << 20]), pre: None });
     out
 }
 
@@ -331,6 +377,13 @@ fn run_case(w: &mut W, c: &Case) -> Result<(String, Value), String> {
         w.started = w.h.restarts;
     }
     seed_state(&mut w.h, c.state)?;
+    let mut waiter: Option<Client> = None;
+    if let Some(pre) = &c.pre {
+        let mut wc = w.h.srv.as_ref().unwrap().connect().map_err(|e| format!("connect: {:?}", e))?;
+        wc.send(pre);
+        let _ = w.h.srv.as_ref().unwrap().steps(3);
+        waiter = Some(wc);
+    }
     let mut cli = w.h.srv.as_ref().unwrap().connect().map_err(|e| format!("connect: {:?}", e))?;
     let bytes = match &c.raw {
         Some(b) => b.clone(),
@@ -338,6 +391,16 @@ fn run_case(w: &mut W, c: &Case) -> Result<(String, Value), String> {
     };
     send_stepping(&mut w.h, &mut cli, &bytes)?;
     let (got, err) = w.h.collect(&mut cli, 1, 3 + bytes.len() / 4096);
+    if let Some(mut wc) = waiter.take() {
+        // let the wake-ups run, then the waiter leaves
+        if !w.h.srv.as_ref().unwrap().is_dead() {
+            let _ = w.h.srv.as_ref().unwrap().steps(4);
+        }
+        wc.discard();
+        if !w.h.srv.as_ref().unwrap().is_dead() {
+            let _ = w.h.srv.as_ref().unwrap().steps(2);
+        }
+    }
     let reply = got.first().map(resp::show).unwrap_or_else(|| err.clone().unwrap_or_else(|| "(no reply)".into()));
     let mut outcome = "ok".to_string();
     let mut detail = json!({"request": if c.raw.is_some() { resp::show_bytes(&bytes) } else { resp::show_cmd(&c.cmd) }, "key_state": state_names()[c.state], "reply": if reply.len() > 200 { format!("{}…", &reply[..200]) } else { reply }});
